@@ -52,5 +52,17 @@ PROPS["C06"] = dict(
     assumptions=["internal/ref/amf0ref follows the AMF0 specification sections 2.2-2.12", "ECMA array count is advisory"],
 )
 
+PROPS["C03"] = dict(
+    pkg="c03", level="exploration",
+    rule="generated RTMP packets of all 12 constructible kinds (codec laws + protocol byte layout via the reference AMF0 encoder), all 65536 user-control event types enumerated, "
+         "request/response histories between two endpoints against a transaction-map model, and typed waits against a first-match model; per-check rules under coverage.checks",
+    quick=dict(timeout=600), thorough=dict(shards=16, timeout=3000),
+    technique="property-based testing (rapid): codec round-trip/Size laws with an independent layout oracle, model-based request/response histories, first-match model for typed waits; exhaustive event-type enumeration",
+    level_text="Random exploration with shrinking over packet fields, histories (<=30 ops) and wait prefixes (<=12 packets); the event-type dimension (65536 values) is enumerated completely.",
+    level_note="Trusts the dispatch table written from the protocol (connect->ConnectApp, publish->Publish, _result->response type of the outstanding request, control types->their packets, other commands->Call) "
+               "and the reference AMF0 encoder. Transaction ids are positive (library contract tid>0); _error responses and audio/video before ExpectPacket are outside the statement.",
+    assumptions=["dispatch table in c03_test.go reflects RTMP 1.0 section 7 and the library's documented packet set", "transaction ids > 0 and not NaN"],
+)
+
 NOT_APPLICABLE = {}
 HOOK_COMMITS = []
